@@ -177,6 +177,14 @@ func (aead *aesCBCAEAD) Open(dst, nonce, ciphertext, additionalData []byte) ([]b
 	ciphertextTag := ciphertext[len(ciphertext)-aead.tagSize:]
 	ciphertext = ciphertext[:len(ciphertext)-aead.tagSize]
 
+	// The nonce is the IV for AES-CBC, and the ciphertext is a whole (non-zero) number of blocks, as PKCS#7 always adds padding
+	if len(nonce) != aes.BlockSize {
+		return nil, errors.New("invalid nonce size")
+	}
+	if len(ciphertext) == 0 || (len(ciphertext)%aes.BlockSize) != 0 {
+		return nil, errors.New("invalid ciphertext size")
+	}
+
 	// First, check the authentication tag matches
 	expectTag := aead.hmacTag(hmac.New(aead.macAlg, aead.macKey), additionalData, nonce, ciphertext, aead.tagSize)
 	if !hmac.Equal(ciphertextTag, expectTag) {
